@@ -6,6 +6,7 @@ with tables dumped from Go's unicode package); the theorems hold for every such 
 -/
 import KlogV.Lemmas.TagsSpec
 import KlogV.Props.Rx.Tags
+import KlogV.Props.Rx.Model
 namespace KlogV.C14
 
 /-- The scanner finds exactly the tags the specification's grammar defines … -/
